@@ -16,8 +16,9 @@ Log == JsonDeserialize(IOEnv.TRACE_FILE)
 VARIABLES l,        \* next event
           order,    \* nodes in permanent-index order, in units of the current level
           levels,   \* creation level of every node, same order
-          seenRaw, seenProj   \* longest digest sequences of get_nodes(projection=False/True)
-tvars == <<vars, l, order, levels, seenRaw, seenProj>>
+          seenRaw, seenProj,  \* longest digest sequences of get_nodes(projection=False/True)
+          seenHalf            \* the same for get_half_of_hypercube, per subdivision level and projection flag
+tvars == <<vars, l, order, levels, seenRaw, seenProj, seenHalf>>
 
 Ev == Log[l]
 SeqSet(s) == {s[i] : i \in 1 .. Len(s)}
@@ -33,14 +34,16 @@ Longer(a, b) == IF Len(a) >= Len(b) THEN a ELSE b
    previous edges" are the MECHANISM (a correct refactoring may add the extra edges at another moment); they
    are evaluated by EdgesAgree below and reported by the driver as an advisory, not as a violation. *)
 EdgesAgree(ev, es) == EdgeSet(ev) = es
-StateClause(ev, ns, es, nw, k, oldOrder, oldLevels) ==
+StateClauseG(ev, ns, es, nw, k, oldOrder, oldLevels, oneStep) ==
   IF ev.err # "" THEN "exception:" \o ev.err
   ELSE IF Len(ev.nodes) # Cardinality(SeqSet(ev.nodes)) THEN "a node appears twice"
   ELSE IF SeqSet(ev.nodes) # ns THEN "node set is not the model's lattice"
   ELSE IF Len(ev.nodes) # NodeCount(Kind, k) THEN "node count"
-  ELSE IF \E i \in 1 .. Len(oldOrder) : ev.nodes[i] # Mul(2, oldOrder[i]) THEN "index of an old node changed"
+  ELSE IF \E i \in 1 .. Len(oldOrder) : ev.nodes[i] # (IF oneStep THEN Mul(2, oldOrder[i]) ELSE oldOrder[i]) THEN "index of an old node changed"
   ELSE IF SubSeq(ev.levels, 1, Len(oldLevels)) # oldLevels THEN "level of an old node changed"
-  ELSE IF \E i \in (Len(oldLevels) + 1) .. Len(ev.levels) : ev.levels[i] # k THEN "level of a new node"
+  ELSE IF oneStep /\ \E i \in (Len(oldLevels) + 1) .. Len(ev.levels) : ev.levels[i] # k THEN "level of a new node"
+  ELSE IF \E i \in 1 .. (Len(ev.levels) - 1) : ev.levels[i] > ev.levels[i + 1] THEN "indices of an earlier level are not all below those of a later level"
+  ELSE IF \E i \in 1 .. Len(ev.levels) : ev.levels[i] > k THEN "level of a node"
   ELSE IF ev.ci # [i \in 1 .. Len(ev.nodes) |-> i - 1] THEN "permanent indices are not 0..n-1"
   ELSE IF ev.projres > 1000 THEN "projection is not the node scaled to unit length"
   ELSE IF ~ev.negclosed THEN "projections not closed under negation"
@@ -48,14 +51,45 @@ StateClause(ev, ns, es, nw, k, oldOrder, oldLevels) ==
        THEN "half selection is not the canonical half in index order"
   ELSE "ok"
 
+StateClause(ev, ns, es, nw, k, oldOrder, oldLevels) == StateClauseG(ev, ns, es, nw, k, oldOrder, oldLevels, TRUE)
+
 TraceInit == /\ Init
-             /\ l = 1 /\ order = <<>> /\ levels = <<>> /\ seenRaw = <<>> /\ seenProj = <<>>
+             /\ l = 1 /\ order = <<>> /\ levels = <<>> /\ seenRaw = <<>> /\ seenProj = <<>> /\ seenHalf = <<>>
              /\ TLCSet(1, 0)
 
+(* a new polytope object: the model is put back into its initial state; the digest sequences seen so far are
+   kept - a second object must reproduce them (the rows are a function of the polytope type only) *)
 Create == /\ Ev.ev = "create"
-          /\ LET c == StateClause(Ev, nodes, edges, nodes, 0, <<>>, <<>>) IN IF c = "ok" THEN TRUE ELSE Reject(c)
+          /\ lvl' = 0 /\ nodes' = Lattice(Kind, 0) /\ newest' = Lattice(Kind, 0) /\ edges' = UnitEdges(Kind, 0) /\ pendingExtras' = FALSE
+          /\ LET c == StateClause(Ev, nodes', edges', nodes', 0, <<>>, <<>>) IN IF c = "ok" THEN TRUE ELSE Reject(c)
           /\ order' = Ev.nodes /\ levels' = Ev.levels
-          /\ UNCHANGED <<vars, seenRaw, seenProj>>
+          /\ UNCHANGED <<seenRaw, seenProj, seenHalf>>
+
+(* a division after which the driver deliberately does NOT look at the object (no getter runs, no cache is touched) *)
+DivideBlind == /\ Ev.ev = "divide_blind"
+               /\ Divide
+               /\ IF Ev.err = "" THEN TRUE ELSE Reject("exception:" \o Ev.err)
+               /\ order' = [i \in 1 .. Len(order) |-> Mul(2, order[i])] /\ UNCHANGED levels
+               /\ UNCHANGED <<seenRaw, seenProj, seenHalf>>
+
+(* a look at the whole object without a division in between (after one or several blind divisions) *)
+Snap == /\ Ev.ev = "snap"
+        /\ LET c == StateClauseG(Ev, nodes, edges, newest, lvl, order, SubSeq(levels, 1, Len(levels)), FALSE) IN IF c = "ok" THEN TRUE ELSE Reject(c)
+        /\ order' = IF Ev.err = "" THEN Ev.nodes ELSE order
+        /\ levels' = IF Ev.err = "" THEN Ev.levels ELSE levels
+        /\ UNCHANGED <<vars, seenRaw, seenProj, seenHalf>>
+
+HalfKey == <<lvl, Ev.proj>>
+Half == /\ Ev.ev = "half"
+        /\ LET seen == IF HalfKey \in DOMAIN seenHalf THEN seenHalf[HalfKey] ELSE <<>>
+               want == IF Ev.n < 0 THEN NodeCount(Kind, lvl) \div 2 ELSE Ev.n
+               c == IF Ev.err # "" THEN "exception:" \o Ev.err
+                    ELSE IF Len(Ev.rows) # want THEN "half selection has the wrong number of rows"
+                    ELSE IF ~PrefixRel(Ev.rows, seen) THEN "half selection is not a prefix of an earlier/later result"
+                    ELSE "ok"
+           IN /\ IF c = "ok" THEN TRUE ELSE Reject(c)
+              /\ seenHalf' = IF c = "ok" THEN (HalfKey :> Longer(Ev.rows, seen)) @@ seenHalf ELSE seenHalf
+        /\ UNCHANGED <<vars, order, levels, seenRaw, seenProj>>
 
 TraceDivide ==
           /\ Ev.ev = "divide"
@@ -63,7 +97,7 @@ TraceDivide ==
           /\ LET c == StateClause(Ev, nodes', edges', newest', lvl', order, levels) IN IF c = "ok" THEN TRUE ELSE Reject(c)
           /\ IF Ev.err = "" /\ ~EdgesAgree(Ev, edges') THEN PrintT(<<"ADVISORY", Ev.tid, "edge set differs from the model", l>>) ELSE TRUE
           /\ order' = Ev.nodes /\ levels' = Ev.levels
-          /\ UNCHANGED <<seenRaw, seenProj>>
+          /\ UNCHANGED <<seenRaw, seenProj, seenHalf>>
 
 Get ==    /\ Ev.ev = "get"
           /\ LET seen == IF Ev.proj THEN seenProj ELSE seenRaw
@@ -74,10 +108,10 @@ Get ==    /\ Ev.ev = "get"
              IN /\ IF c = "ok" THEN TRUE ELSE Reject(c)
                 /\ seenRaw' = IF ~Ev.proj /\ c = "ok" THEN Longer(Ev.rows, seenRaw) ELSE seenRaw
                 /\ seenProj' = IF Ev.proj /\ c = "ok" THEN Longer(Ev.rows, seenProj) ELSE seenProj
-          /\ UNCHANGED <<vars, order, levels>>
+          /\ UNCHANGED <<vars, order, levels, seenHalf>>
 
 TraceNext == /\ l <= Len(Log)
-             /\ (Create \/ TraceDivide \/ Get)
+             /\ (Create \/ TraceDivide \/ DivideBlind \/ Snap \/ Get \/ Half)
              /\ l' = l + 1
              /\ TLCSet(1, l)
 TraceSpec == TraceInit /\ [][TraceNext]_tvars
